@@ -418,3 +418,89 @@ def tostr(x):
     if isinstance(x, (list, tuple)):
         return [tostr(y) for y in x]
     return str(x)
+
+
+# ---------------------------------------------------------------------------------------------
+# decoding model output back to python objects (repr holes, generated values)
+
+def dec_value(e, I):
+    from fractions import Fraction as Fr
+    if e == "N":
+        return None
+    if e == "E":
+        return Ellipsis
+    if e == "nan":
+        return float("nan")
+    if e == "+inf":
+        return float("inf")
+    if e == "-inf":
+        return float("-inf")
+    t = e[0]
+    if t == "b":
+        return e[1] == "1"
+    if t == "i":
+        return int(e[1])
+    if t == "f":
+        return float(Fr(int(e[1]), int(e[2])))
+    if t == "s":
+        return "".join(chr(int(c)) for c in e[1:])
+    if t == "y":
+        return bytes(int(c) for c in e[1:])
+    if t == "u":
+        return I.uuids[int(e[1])]
+    if t == "dt":
+        return I.dts[int(e[1])]
+    if t == "d":
+        return I.ds[int(e[1])]
+    if t == "o":
+        return I.others[int(e[1])]
+    if t == "l":
+        return [dec_value(x, I) for x in e[1:]]
+    if t == "m":
+        return {dec_key(k, I): dec_value(v, I) for k, v in e[1:]}
+    raise ValueError(e)
+
+
+def dec_key(e, I):
+    if e == "N":
+        return None
+    if e == "E":
+        return Ellipsis
+    t = e[0]
+    if t == "s":
+        return "".join(chr(int(c)) for c in e[1:])
+    if t == "y":
+        return bytes(int(c) for c in e[1:])
+    if t == "i":
+        return int(e[1])
+    if t == "o":
+        for k, i in I.okeys.items():
+            if i == int(e[1]):
+                return k
+    raise ValueError(e)
+
+
+def render_toks(toks, I):
+    out = []
+    for t in toks[1:]:
+        k = t[0]
+        if k == "t":
+            out.append("".join(chr(int(c)) for c in t[1:]))
+        elif k == "val":
+            out.append(repr(dec_value(t[1], I)))
+        elif k == "key":
+            out.append(repr(dec_key(t[1], I)))
+        elif k == "pat":
+            out.append(repr(I.patterns[int(t[1])]))
+        elif k == "name":
+            out.append("".join(chr(int(c)) for c in t[1:]))
+    return "".join(out)
+
+
+def strip_dec(e):
+    """float schemas modulo the decimal companions of min/max (recomputed by the encoder)"""
+    if isinstance(e, list):
+        if len(e) == 7 and e[0] == "float":
+            return [strip_dec(x) for x in e[:5]] + ["_", "_"]
+        return [strip_dec(x) for x in e]
+    return e
